@@ -441,6 +441,7 @@ impl<'this> InternalOptimisingLineFormatter<'this, '_> {
             spaces_before,
             content: content_len,
         } = self.token_lengths[first_token_index];
+        let multiline_last_line_len = self.get_multiline_token_last_line_length(first_token_index);
 
         let (new_line, requirement, last_line_length, base_can_break) = match (
             self.get_formatting_invariant(0, line.1),
@@ -471,6 +472,9 @@ impl<'this> InternalOptimisingLineFormatter<'this, '_> {
                 can_break,
             ),
         };
+
+        // The line continues after the last line of a multiline first token
+        let last_line_length = multiline_last_line_len.unwrap_or(last_line_length);
 
         let invariants = self.get_formatting_invariant(0, line.1);
         if let (Some(DR::MustNotBreak), NL::Break) | (Some(DR::MustBreak), NL::Continue) =
@@ -1144,6 +1148,24 @@ impl<'this> InternalOptimisingLineFormatter<'this, '_> {
             .map(|decision| decision.last_line_length)
     }
 
+    fn get_multiline_token_last_line_length(&self, token_index: usize) -> Option<u32> {
+        let (token, _) = self.formatted_tokens.get_token(token_index)?;
+        if let TT::TextLiteral(TextLiteralKind::MultiLine)
+        | TT::Comment(CommentKind::MultilineBlock) = token.get_token_type()
+        {
+            // Multiline tokens necessarily have a break in them, so the line
+            // length must be calculated.
+            token
+                .get_content()
+                .lines()
+                .skip(1)
+                .last()
+                .map(|last_line| last_line.len() as u32)
+        } else {
+            None
+        }
+    }
+
     fn get_token_line_length(
         &self,
         starting_ws: LineWhitespace,
@@ -1151,18 +1173,10 @@ impl<'this> InternalOptimisingLineFormatter<'this, '_> {
         decision: Decision,
         token_index: Option<usize>,
     ) -> u32 {
-        if let Some((
-            TT::TextLiteral(TextLiteralKind::MultiLine) | TT::Comment(CommentKind::MultilineBlock),
-            token_content,
-        )) = token_index
-            .and_then(|index| self.formatted_tokens.get_token(index))
-            .map(|(token, _)| (token.get_token_type(), token.get_content()))
+        if let Some(last_line_len) =
+            token_index.and_then(|index| self.get_multiline_token_last_line_length(index))
         {
-            // Multiline tokens necessarily have a break in them, so the line
-            // length must be calculated.
-            if let Some(last_line) = token_content.lines().skip(1).last() {
-                return last_line.len() as u32;
-            }
+            return last_line_len;
         }
         match (
             decision,
